@@ -103,6 +103,20 @@ def gen(rng, tier):
             "edges": rng.choice([[("in", "aff"), ("aff", "out")], [("aff", "out"), ("in", "aff"), ("in", "out")]])}
         cases.append({"kind": "observe", "recipe": V.enc_recipe(r), "how": "negdim", "seq": [rng.choice(OBS + ["check", "check"]) for _ in range(rng.randint(1, 4))] + ["check"],
                       "stale": False})
+    # typed convolutions with padding 'same' and a stride > 1 (and other strided / padded layers) as edge targets
+    for _ in range(8 if tier == "quick" else 80):
+        nd = rng.choice([1, 2, 2])
+        n = [rng.randint(6, 10) for _ in range(nd)]
+        st = [rng.choice([2, 3]) for _ in range(nd)]
+        conv = {"k": "Conv1d" if nd == 1 else "Conv2d",
+                "args": {"input_shape": n[0] if nd == 1 else tuple(n), "weight": np.ones([3, 2] + [3] * nd, dtype="float32"),
+                         "stride": st[0] if nd == 1 else tuple(st), "padding": rng.choice(["same", "same", "valid", 1]), "dilation": 1, "groups": 1,
+                         "bias": np.zeros(3, dtype="float32")}}
+        r = {"k": "NIRGraph", "nodes": {"in": {"k": "Input", "args": {"input_type": np.array([2] + n, dtype=np.int64)}}, "conv": conv,
+                                        "out": {"k": "Output", "args": {"output_type": None}}},
+             "edges": [("in", "conv"), ("conv", "out")]}
+        cases.append({"kind": "observe", "recipe": V.enc_recipe(r), "how": "strided", "seq": [rng.choice(OBS) for _ in range(rng.randint(0, 2))] + ["check", "to_dict"],
+                      "stale": False})
     # an edge between two nested graphs that each have SEVERAL ports (the type check does not support it and must raise without
     # touching anything)
     for _ in range(6 if tier == "quick" else 60):
